@@ -1016,6 +1016,14 @@ def bi_str_prefix(st, args, kw):
     return E.mk_bool(z3.PrefixOf(args[1].z, args[0].z))
 
 
+def bi_pure_IO_encrypted_of(st, args, kw):
+    """the value IO.encrypted takes for a given socket object (same uninterpreted symbol as the property)"""
+    v = st.coerce(args[0], T.ANY)
+    f = z3.Function('pure!IO.encrypted', z3.IntSort(), T.PyVal, z3.BoolSort())
+    x = z3.Int('io!any')
+    return E.mk_bool(z3.ForAll([x], f(x, v.z), patterns=[f(x, v.z)]))
+
+
 def bi_mkseq(st, args, kw):
     a, n = args
     return Val(T.TSeq(a.t.args[1]), SeqV(a.z, n.z))
@@ -1073,7 +1081,7 @@ def bi_dict(st, args, kw):
 
 
 _BUILTINS = {
-    'mkseq': bi_mkseq, 'str_prefix': bi_str_prefix, 'nraised': bi_nraised, 'allocated': bi_allocated, 'ncalls': bi_ncalls, 'call_arg': bi_call_arg,
+    'mkseq': bi_mkseq, 'pure_IO_encrypted_of': bi_pure_IO_encrypted_of, 'str_prefix': bi_str_prefix, 'nraised': bi_nraised, 'allocated': bi_allocated, 'ncalls': bi_ncalls, 'call_arg': bi_call_arg,
     'call_result': bi_call_result, 'trig': bi_trig, 'same': bi_same, 'is_list': bi_is_list, 'store': bi_store, 'dict_has': bi_dict_has,
     'dict_get': bi_dict_get, 'dict_keys': bi_dict_keys, 'dict': bi_dict, 'dict_index': bi_dict_index,
     'len': bi_len, 'set': bi_set, 'list': bi_list, 'tuple': bi_tuple, 'min': bi_min, 'max': bi_max,
